@@ -30,7 +30,8 @@ CLAIMS.update({
         "Structural clauses only: the accept language of the selector filter provably contains no climbing word; every "
         "handler is gated by filter-AND-test with short-circuit; nothing but stat happens before the gate; the one relaxed "
         "handler is file-system free; every FS/exec call site on the request path acts on root + accepted selector + safe "
-        "suffix (content-derived selectors must be filtered); decoding happens only before handler selection; nothing "
+        "suffix (content-derived selectors must be filtered); what the stat on the unfiltered selector found reaches only the "
+        "handlers (no existence oracle in the multiplexer's reply); decoding happens only before handler selection; nothing "
         "request-derived is evaluated; real-file handlers refuse archive VFS objects. These are necessary conditions whose "
         "violation lets a request reach a path outside the root; byte-identity of responses (non-interference) is not decided.",
         "Trusted: POSIX path semantics; listdir never yields '.'/'..'; receiver-type table of resolve.py; executable content "
@@ -41,7 +42,7 @@ CLAIMS.update({
         "path-sensitive partial evaluation of every protocol test under the TLS-parity assumption; catch-all/ordering "
         "analysis of the shipped lists; guard-fact analysis of partial operations; structural analysis of the TLS sniff",
         "Decides: first-match-wins in configured order; no protocol accepts a connection of the wrong TLS parity; the tests "
-        "are total (cannot raise on any line) and pure; the shipped lists end in a catch-all per parity with nothing dead "
+        "are total (cannot raise on any line), pure and keep nothing between connections (memoised helpers return immutable values); the shipped lists end in a catch-all per parity with nothing dead "
         "behind it; the sniff peeks exactly one byte with MSG_PEEK, wraps iff it is 0x16, inside the worker, and the "
         "wrapped socket is what gets served; WAP auto-detection agrees with the header table the header reader builds (both "
         "evaluated on scripted header blocks). Which protocol wins for lines that nearly match several shapes is not decided.",
@@ -69,7 +70,7 @@ CLAIMS.update({
         "builder and symlink resolution have no file-system effect (members come from the in-memory index only); every handler "
         "that hands getfspath() to a real-file API refuses archive VFS objects (evaluated against the real class hierarchy, so a "
         "vacuous isinstance test does not count); the inner chain is the ordinary multiplexer on the archive VFS. Equivalence "
-        "with the extracted tree is not decided in general; the index lookup is evaluated on a representative index (members, "
+        "with the extracted tree is not decided in general; stat() reports constant regular-file/directory modes; the index lookup is evaluated on a representative index (members, "
         "non-members, prefixes, directories; 4 lookup histories) so that members are found and non-members refused.",
         "Trusted: zipfile.ZipFile methods act only on the already opened archive.",
     ),
@@ -92,9 +93,10 @@ CLAIMS.update({
         "effect-site enumeration of deserialisations + try/handler coverage + failure-path walk",
         "Every load of a server-written cache (pickle.load of the directory cache, shelve.open(...,'r') of the ZIP index) is inside "
         "a try whose handlers cover every exception class a truncated or zero-filled file can raise, and the failure path "
-        "regenerates without marking the data as cached (also when the flag had been set before the load). Because a pickle's only STOP opcode is its last byte, no proper prefix "
+        "regenerates without marking the data as cached (also when the flag had been set before the load); a dbm index is read "
+        "completely under the guard and carries an entry count written last and compared on load. Because a pickle's only STOP opcode is its last byte, no proper prefix "
         "loads successfully, so this structural condition covers every truncation point.",
-        "Trusted: CPython pickle framing; dbm backends fail at open for a truncated file (lazily detected damage is not decided).",
+        "Trusted: CPython pickle framing.",
     ),
     "C12": (
         "3/C12",
@@ -104,7 +106,8 @@ CLAIMS.update({
         "family, with their resolved hook overrides) each call "
         "that can raise FileNotFound or OSError for one entry is caught inside the loop body by a handler that lets the loop go on; "
         "the stat before handler selection is absorbed, no handler test subscripts a missing stat result, and handlers that open "
-        "what they serve accept only regular files/directories (path-sensitive accept analysis of canhandlerequest).",
+        "what they serve accept only regular files/directories (path-sensitive accept analysis of canhandlerequest); a loop over "
+        "the entry collection does not change that collection.",
         "Trusted: the may-raise model (handler multiplexer raises FileNotFound; stat/open/listdir raise OSError; exists/isdir/isfile do not).",
     ),
     "C13": (
@@ -114,7 +117,8 @@ CLAIMS.update({
         "Every operand interpolated into HTML/WML the server builds is html.escape'd (text) or quote-escaped/percent-encoded "
         "(double-quoted attribute); HTTP header lines interpolate only server-chosen values; the redirect page escapes its URL and "
         "its filter rejects quotes and control characters; Gopher+ attribute text is emitted line by line behind a one-space prefix; "
-        "HTML titles and mail subjects are whitespace-collapsed before becoming names. Since escaping is a property of the code "
+        "HTML titles and mail subjects are whitespace-collapsed before becoming names; what the HTML/WML renderers return is the "
+        "markup they built (nothing transforms it after escaping). Since escaping is a property of the code "
         "path every datum takes, the provenance analysis decides it for all inputs.",
         "Trusted: html.escape / urllib.parse.quote semantics; configuration text (pagetopper, footer) is trusted markup; seeds of "
         "tainted fields (entry name/selector/host, request data, exception text).",
@@ -127,7 +131,7 @@ CLAIMS.update({
         "object, never re-raises; both servers wrap finish_request and shut the request down in a finally; the protocols' I/O-error "
         "replies do not index exception arguments; every file/archive/mailbox acquisition on the request path is scoped; the log "
         "line carries client address, protocol class and the exception's own class on every path of the logger, which keeps no "
-        "state; error writers tolerate a None strerror.",
+        "state; error writers tolerate a None strerror; body writers let connection errors pass unchanged.",
         "Trusted: CPython reference counting closes a descriptor whose last reference dies; socketserver's handle_error/shutdown_request.",
     ),
 })
@@ -154,8 +158,9 @@ CLAIMS.update({
         "parser decodes with (one layer, safe characters exclude the parser's separators); the WAP prefix and Gemini query "
         "prefix are the same value on both sides; the virtual-selector separator emitted is one the parser splits on; child "
         "selectors are selectorbase/name resolved through the handler chain on the same VFS; folder handlers number and flag "
-        "messages the way the message handlers parse them and both step through the same message sequence; each request parser, "
-        "evaluated on 12 targets with reserved characters, hands the handler chain the selector the link encoder was given. "
+        "messages the way the message handlers parse them and both step through the same message sequence; the link target each "
+        "protocol's renderer produces (evaluated for 12 selectors and the item types), fed to that protocol's request parser, gives "
+        "the selector back; names taken from file content cannot shift the fields of a menu line. "
         "That every followed link succeeds is behavioural and not decided.",
         "Trusted: urllib quote/unquote are inverse for equal codec parameters.",
     ),
@@ -167,8 +172,9 @@ CLAIMS.update({
         "exactly once, unconditionally; every selector reaching handler selection went through slashnormalize(), which yields a "
         "leading '/' on every path; every protocol decodes request text (percent-encoding, query strings, request bodies, the "
         "request line) as UTF-8 with surrogateescape; each protocol's adjust function maps the menu type to its own listing type "
-        "and is total; link targets and default host/port are filled in the same way for every protocol (evaluated on "
-        "representative entries). Equality of the rendered listings is not decided.",
+        "and is total; link targets and default host/port are filled in the same way for every protocol and every rendered target "
+        "percent-decodes to the entry's selector (evaluated on representative entries); handlers build entries without asking the "
+        "protocol object anything. Equality of the rendered listings is not decided.",
         "Trusted: Python codec semantics.",
     ),
     "C07": (
@@ -178,7 +184,8 @@ CLAIMS.update({
         "Structural clauses: entries are built from a sorted name list; every loop over listdir() either iterates a sorted "
         "sequence or has an order-insensitive body for every concrete class (with its hook overrides); the ignore pattern is "
         "consulted only while listing; dot-files never enter the UMN listing; the comparator is pure and reads only name/number; "
-        "a name is appended once, iff the filter accepted it; listdir returns the OS's names unchanged. Set equality with the directory contents is not decided.",
+        "a name is appended once, iff the filter accepted it (evaluated on a scripted directory); listdir returns the OS's names "
+        "unchanged; the listing kept in the cache is the final one. Set equality with the directory contents is not decided.",
         "Trusted: list.sort is deterministic for strings.",
     ),
     "C08": (
@@ -191,7 +198,7 @@ CLAIMS.update({
         "bucket order and antisymmetry, and the final sort uses this comparator after the merge. Merge: per path of "
         "MergeLinkFiles's loop and block type (X, -, other) a block is appended once, merged into the walked entry, or hides it "
         "(idempotently); the selector index is not shrunk and nothing is dropped by selector text; mergeentries overrides only set "
-        "fields; .cap Type=X/- hides, anything else overrides; Host=+/Port=+ leave the field unset; the link-file reader, evaluated "
+        "fields (evaluated on model entries); every generated listing is merged and sorted; .cap Type=X/- hides, anything else overrides; Host=+/Port=+ leave the field unset; the link-file reader, evaluated "
         "on 12 scripted blocks (Path= forms, Host/Port +, Numb, Abstract continuation, comments), yields the documented entry. "
         "Link-file text outside these representatives is not decided.",
         "Trusted: the walker's constant folding of comparisons and integer arithmetic.",
@@ -213,8 +220,8 @@ CLAIMS.update({
         "Structural clauses: +INFO is '+INFO: ' plus the output of the very function that renders plain Gopher menu lines; every "
         "advertised fixed block has its renderer and one block is added per extended attribute; the length prefix of a + request "
         "describes the body or is the unknown marker (R04b); attribute content lines carry the one-space prefix (R13d); sidecar "
-        "files are read per configured extension in text mode, right-stripped and newline-joined; item information depends on no "
-        "module- or class-level state. Sidecar line fidelity beyond "
+        "files are read per configured extension in text mode, right-stripped and newline-joined (evaluated on scripted files); item "
+        "information depends on no module- or class-level state and not on the protocol that asks. Sidecar line fidelity beyond "
         "that is not decided.",
         "Trusted: as for C04 and C13.",
     ),
